@@ -28,4 +28,10 @@ func Property(id string) *PropSpec { return props[id] }
 func init() {
 	props["C01"] = &PropSpec{ID: "C01", Engines: []string{"EDGE"}, Rules: []string{"EDGE"},
 		Explanation: "wip"}
+	props["C18"] = &PropSpec{ID: "C18", Engines: []string{"HEAP"}, Rules: []string{"HEAP"},
+		Explanation: "wip"}
+	props["C20"] = &PropSpec{ID: "C20", Engines: []string{"DFSV"}, Rules: []string{"DFSV", "KAHN"},
+		Explanation: "wip"}
+	props["C19"] = &PropSpec{ID: "C19", Engines: []string{"MIRROR"}, Rules: []string{"MIRROR", "COPY", "REVERSE", "PURITY"},
+		Explanation: "wip"}
 }
